@@ -83,11 +83,13 @@ func (i *IterationDurations) Update(other *IterationDurations) {
 	}
 }
 
-func (i *IterationDurations) Reset() {
-	i.sum.Store(0)
-	i.count.Store(0)
-	i.max.Store(0)
-	i.min.Store(0)
+// drainInto moves the values recorded so far into other, clearing each field with an
+// atomic swap so that values added concurrently are kept for the next drain.
+func (i *IterationDurations) drainInto(other *IterationDurations) {
+	other.sum.Store(i.sum.Swap(0))
+	other.count.Store(i.count.Swap(0))
+	other.max.Store(i.max.Swap(0))
+	other.min.Store(i.min.Swap(0))
 }
 
 type DurationStats struct {
@@ -100,9 +102,9 @@ func (d *DurationStats) Record(nanoseconds int64) {
 }
 
 func (d *DurationStats) CollectLifetime() (IterationDurationsSnapshot, IterationDurationsSnapshot) {
-	running := d.running.Snapshot()
-	d.lifetime.Update(&d.running)
-	d.running.Reset()
+	var period IterationDurations
+	d.running.drainInto(&period)
+	d.lifetime.Update(&period)
 
-	return running, d.lifetime.Snapshot()
+	return period.Snapshot(), d.lifetime.Snapshot()
 }
